@@ -1051,7 +1051,7 @@ class StubsStringGenerator:
         if (qname_parts[0] == "builtins" and len(qname_parts) == 2) or import_qname == "typing.Any":
             return
 
-        module_id = self._get_module_id(get_actual_id=True).replace("/", ".")
+        module_id = self._get_module_id().replace("/", ".")
         if module_id not in import_qname:
             # We need the full path for an import from the same package, but we sometimes don't get enough information,
             # therefore we have to search for the class and get its id
